@@ -20,7 +20,7 @@
 //!   After the script: step n = all handlers free-run (drain); step n+1 = every client is dropped.
 //!
 //! Observed (step indices; `-` = never):
-//!   R<resolvedAt>:<open server IOs at that instant>:<ok|err>
+//!   R<resolvedAt>:<open server IOs at that instant (`*` in mode n)>:<ok|err>
 //!   c<i>:<accepted 0|1>:<server IO dropped at>
 //!   k<j>:<handler started 0|1>:<headers 0|1|bad>:<good messages|bad>:<status s<code>|s<code>!|->:<client done at>
 use crate::common::*;
@@ -472,7 +472,9 @@ async fn client_call(sh: Sh, ch: tonic::transport::Channel, k: usize) {
         return;
     }
     let mut body = (k as u32).to_be_bytes().to_vec();
-    body.extend(std::iter::repeat(0xA5u8).take(payload.min(64)));
+    // the request is as large as the responses, so that big-payload scenarios also have the
+    // request upload (and its flow control) in flight around the signal
+    body.extend(std::iter::repeat(0xA5u8).take(payload));
     if !streaming {
         let path = http::uri::PathAndQuery::from_static("/verif.Gate/Unary");
         match grpc.unary::<Vec<u8>, Vec<u8>, _>(Request::new(body), path, RawCodec).await {
@@ -559,6 +561,7 @@ async fn run(sc: Script) -> String {
     let incoming = Incoming(inc_rx);
     let shs = sh.clone();
     let graceful = sc.graceful;
+    let sc_graceful = sc.graceful;
     let serve_task = tokio::spawn(async move {
         let r = if graceful {
             router
@@ -710,7 +713,12 @@ async fn run(sc: Script) -> String {
     let idx = |o: Option<usize>| o.map(|v| v.to_string()).unwrap_or_else(|| "-".into());
     let mut out = Vec::new();
     match g.resolved {
-        Some((st, open, ok)) if st <= nsteps + 1 => out.push(format!("R{}:{}:{}", st, open, if ok { "ok" } else { "err" })),
+        Some((st, open, ok)) if st <= nsteps + 1 => {
+            // without a shutdown signal nothing is claimed about connections still open at that
+            // instant (and the count depends on scheduling): not reported
+            let open = if sc_graceful { open.to_string() } else { "*".to_string() };
+            out.push(format!("R{}:{}:{}", st, open, if ok { "ok" } else { "err" }))
+        }
         _ => out.push("R-:-:-".into()),
     }
     for (i, c) in g.conns.iter().enumerate() {
@@ -1032,17 +1040,40 @@ fn exhaustive(out: &mut Vec<String>, max_len: usize) {
     rec(out, &alphabet, &mut cur, 0, 0, max_len);
 }
 
+/// the same scenarios with no quiescent point between steps: all `~0`, and a random mix
+fn racy_variants(out: &mut Vec<String>, rng: &mut Rng, cases: &[String]) {
+    for c in cases {
+        let toks: Vec<&str> = c.split(' ').collect();
+        let ops: Vec<String> = toks[5..].iter().map(|t| t.to_string()).collect();
+        if ops.iter().any(|t| t.starts_with('D') || t.starts_with('X')) {
+            continue;
+        }
+        let all0: Vec<String> = ops.iter().map(|t| format!("{}~0", t)).collect();
+        let buf = *rng.pick(&BUFS);
+        out.push(format!("sc g b{} p10 a0 {}", buf, all0.join(" ")));
+        let mixed = add_races(&ops, rng, 5);
+        out.push(format!("sc g b{} p10 a0 {}", buf, mixed.join(" ")));
+    }
+}
+
 pub fn generate(tier: &str, rng: &mut Rng) -> Vec<String> {
     let thorough = tier == "thorough";
     let mut out = corpus();
     if thorough {
-        structured(&mut out, rng, 1500, 4, 6);
-        disturbed(&mut out, rng, 8000, 4, 6);
+        structured(&mut out, rng, 6000, 4, 6);
+        disturbed(&mut out, rng, 40000, 4, 6);
         exhaustive(&mut out, 6);
+        // every scenario up to length 5 again, with every step / random steps non-quiescent
+        let mut ex = Vec::new();
+        exhaustive(&mut ex, 5);
+        racy_variants(&mut out, rng, &ex);
     } else {
         structured(&mut out, rng, 160, 3, 4);
         disturbed(&mut out, rng, 800, 3, 4);
         exhaustive(&mut out, 4);
+        let mut ex = Vec::new();
+        exhaustive(&mut ex, 3);
+        racy_variants(&mut out, rng, &ex);
     }
     out
 }
